@@ -79,8 +79,10 @@ def run_binary(ctx, pt):
                 ctx.eq('C16/%s' % op, r, ('ok', ([f(p, q, m) for p, q in zip(ex, ey)], k)))
                 if len(x) != len(y) and op in ('add', 'xor'):
                     # padding coefficients handed out by e() / a result must not be shared state: scribble on them, evaluate again
-                    for P in (A, B):
-                        scribble(P.e(len(P.ival) + 1))
+                    z1, z2 = A.e(len(A.ival) + 1), B.e(len(B.ival) + 1)
+                    scribble(z1)
+                    if z2 is not z1:
+                        scribble(z2)
                     scribble(apply_op(op, A, B))
                     r = ctx.attempt(lambda: val(apply_op(op, A, B)))
                     ctx.eq('C16/%s/result-shared-with-later-evaluation' % op, r, ('ok', ([f(p, q, m) for p, q in zip(ex, ey)], k)))
